@@ -134,12 +134,15 @@ def main(n, seed):
                         continue
                     data_ = data + b" (own store)" if k == own_store_key else data
                     h = hashlib.md5(data_).hexdigest(); (odb2 if k == own_store_key else odb).add_bytes(h, data_)
-                    idx[k] = DataIndexEntry(key=k, meta=Meta(), hash_info=HashInfo("md5", h))
+                    idx[k] = DataIndexEntry(key=k, meta=Meta(isexec=(k in execs)), hash_info=HashInfo("md5", h))
                 idx.storage_map.add_cache(ObjectStorage((), odb))
                 if own_store_key is not None:
                     idx.storage_map.add_cache(ObjectStorage(own_store_key, odb2))
                 return idx
             errors, problem = [], None
+            # executable entries (copies only: the mode of a link is the mode of the cache object); some of them replace a prior
+            # non-executable file with other bytes, some an identical one (a pure exec-bit flip), some are new
+            execs = {k for k in target if link == "copy" and not mode_lazy and rnd.random() < 0.3}
             try:
                 old = build(ws, fs)
                 d1 = compare(md5(old) if with_md5 else old, tgt(), delete=delete)
@@ -152,6 +155,9 @@ def main(n, seed):
                     problem = f"onerror called {len(errors)}x although every source is available"
                 elif delete and got != want:
                     problem = f"workspace differs from target: extra={sorted(set(got) - set(want))[:3]} missing={sorted(set(want) - set(got))[:3]}"
+                elif any(bool(os.stat(os.path.join(ws, *k)).st_mode & 0o100) != (k in execs) for k in target if os.path.isfile(os.path.join(ws, *k)) and link == "copy" and not mode_lazy):
+                    bad = [k for k in target if os.path.isfile(os.path.join(ws, *k)) and bool(os.stat(os.path.join(ws, *k)).st_mode & 0o100) != (k in execs)]
+                    problem = f"executable bit differs from the target for {bad[:3]} (executable entries: {sorted(execs)[:3]})"
                 elif not delete and any(got.get(k) != v for k, v in want.items()):
                     problem = "target not materialised (delete off)"
                 elif not delete:
@@ -169,7 +175,7 @@ def main(n, seed):
                 fails.append({"prior": {"/".join(k): v.decode() for k, v in prior.items()}, "target": {"/".join(k): v.decode() for k, v in target.items()},
                               "delete": delete, "link": link, "dangling_links": ["/".join(k) for k in dangling], "files_only": files_only, "own_store": "/".join(own_store_key) if own_store_key else None, "problem": problem})
     return {"evaluations": n, "distinct_nontrivial": len(distinct), "failures": fails[:int(os.environ.get("VERIF_MAXFAIL", "3"))], "n_failures": len(fails),
-            "bound": "names over {a,b,c}, depth <= 3, <= 5 files on each side, explicit entries (with or without directory entries) or lazy directory objects, optional per-file storage; copy / hardlink / symlink link types; <= 2 dangling symbolic links in the prior workspace"}
+            "bound": "names over {a,b,c}, depth <= 3, <= 5 files on each side, explicit entries (with or without directory entries) or lazy directory objects, optional per-file storage; copy / hardlink / symlink link types; executable entries (copies); <= 2 dangling symbolic links in the prior workspace"}
 
 
 if __name__ == "__main__":
